@@ -492,6 +492,21 @@ def decide_obligation(ob, tier, pool=None):
                 if rp is None:
                     results[gname] = ("undecided", "replay failed: " + err, None)
                     continue
+                if ob["mode"].startswith("simd-vs-scalar"):
+                    # scalar path: the real code run natively in f64; SIMD path: numeric evaluation of the recorded DAG
+                    from . import dageval as DE2
+                    mid = dict((n, i) for n, i in ob["m_outputs"])[gname]
+                    mval = DE2.evaluate(nodes, rp["inputs_f64"], [mid])[mid]
+                    try:
+                        fval = float(rp["f64"]["show"][gname].replace("Some(", "").replace(")", ""))
+                    except Exception:
+                        fval = float("nan")
+                    if abs(mval - fval) > 0.9 * ob["tol"] or mval != mval or fval != fval:
+                        results[gname] = ("violation", f"inputs {dict(zip([x['name'] for x in ob['vars']], v))}: SIMD-path value {mval!r} vs scalar-path value {fval!r} for '{gname}'", v)
+                        done = True
+                        break
+                    results[gname] = ("not-reproduced", f"solver model {v}: SIMD-path {mval!r} and native scalar {fval!r} agree", v)
+                    continue
                 ng = "finite" if gname == "all_partial_operations_defined" else gname
                 bad64 = rp["f64"]["assume_ok"] and rp["f64"]["goals"].get(ng) is False
                 bad32 = rp["f32"]["assume_ok"] and rp["f32"]["goals"].get(ng) is False
